@@ -82,8 +82,10 @@ HelperFollows == IsEv(l + 1, "helper")
 TraceAnswer ==
   IF HelperFollows
   THEN [ret |-> Ev(l+1).ret,
-        clob |-> IF IsEv(l + 2, "step") THEN [r \in 1..5 |-> Ev(l+2).regs[r+1]] ELSE [r \in 1..5 |-> reg[r]]]
-  ELSE [ret |-> Zero, clob |-> [r \in 1..5 |-> reg[r]]]
+        clob |-> IF IsEv(l + 2, "step") THEN [r \in 1..5 |-> Ev(l+2).regs[r+1]] ELSE [r \in 1..5 |-> reg[r]],
+        \* the bytes the helper wrote, as recorded ([addr, bytes] each)
+        wr |-> IF "wr" \in DOMAIN Ev(l+1) THEN Ev(l+1).wr ELSE << >>]
+  ELSE [ret |-> Zero, clob |-> [r \in 1..5 |-> reg[r]], wr |-> << >>]
 
 \* the machine step under deviation set D, bound to the logged fields
 TraceStepWith(D) ==
@@ -192,7 +194,7 @@ SilentBound == 300000
 Silent ==
   /\ IsEv(l, "eend")
   /\ Running /\ steps < SilentBound
-  /\ StepD([ret |-> Zero, clob |-> [r \in 1..5 |-> reg[r]]], {})
+  /\ StepD([ret |-> Zero, clob |-> [r \in 1..5 |-> reg[r]], wr |-> << >>], {})
   /\ UNCHANGED <<l, devs, rundevs>>
 
 EngEnd ==
